@@ -96,13 +96,14 @@ Definition slots_of (bs : list N) : list (list N) := chunk32 bs (S (Nat.div (len
 
 Record entry := {
   e_lfn : list N;        (* long name, UTF-16 units; [] = none *)
-  e_lfn_ok : bool;       (* preceding live LFN slots (if any) formed one complete, ordered, checksummed, padded run *)
+  e_lfn_ok : bool;       (* the pending run (live LFN slots directly before the short slot, back to the nearest one carrying
+                            0x40), if any, is one complete, ordered, checksummed, padded run *)
   e_sfn : list N;        (* 11 raw bytes *)
   e_attr : N; e_ntres : N;
   e_ctime_ms : N; e_ctime : N; e_cdate : N; e_adate : N; e_mtime : N; e_mdate : N;
   e_cluster : N;         (* hi:lo as stored (hi ignored unless FAT32) *)
   e_size : N;
-  e_first_slot : N;      (* index of the first slot of the entry (LFN run start) *)
+  e_first_slot : N;      (* index of the first slot of the entry (start of its pending LFN run) *)
   e_sfn_slot : N }.      (* index of the short slot *)
 
 Definition is_lfn_slot (s : list N) : bool := (byte_at s 11) mod 64 =? 15.
@@ -157,7 +158,14 @@ Definition mk_entry (pend : list (list N)) (s : list N) (idx : N) (fat32 : bool)
 (* decode-time findings about one directory *)
 Inductive dissue := DOrphanLfn (slot : N) | DAfterEnd (slot : N).
 
-(* walk the slots of one directory; returns entries (in order), labels, issues *)
+(* bit 6 (0x40, LAST_LONG_ENTRY) of the order byte: this long-name slot is the first stored slot of a run *)
+Definition lfn_starts (s : list N) : bool := (byte_at s 0 / 64) mod 2 =? 1.
+
+(* walk the slots of one directory; returns entries (in order), labels, issues.
+   A long-name slot carrying 0x40 STARTS a run (as every reader of the format does: the specification's "last long entry"
+   is the first one stored): long-name slots still pending at that point belong to no entry - they are reported as an
+   orphan run at the index of the restarting slot - and the new pending run is just this slot.  So a pending run never
+   holds a 0x40 slot except as its farthest element, which is what run_valid demands. *)
 Fixpoint dir_scan (ss : list (list N)) (idx : N) (pend : list (list N)) (fat32 : bool)
   : list entry * list (list N) * list dissue :=
   match ss with
@@ -170,7 +178,11 @@ Fixpoint dir_scan (ss : list (list N)) (idx : N) (pend : list (list N)) (fat32 :
     else if byte_at s 0 =? 229 then
       let '(es, ls, iss) := dir_scan r (idx + 1) [] fat32 in
       (es, ls, (match pend with [] => [] | _ => [DOrphanLfn idx] end) ++ iss)
-    else if is_lfn_slot s then dir_scan r (idx + 1) (s :: pend) fat32
+    else if is_lfn_slot s then
+      if lfn_starts s && (match pend with [] => false | _ => true end) then
+        let '(es, ls, iss) := dir_scan r (idx + 1) [s] fat32 in
+        (es, ls, DOrphanLfn idx :: iss)
+      else dir_scan r (idx + 1) (s :: pend) fat32
     else if is_label_slot s then
       let '(es, ls, iss) := dir_scan r (idx + 1) [] fat32 in
       (es, firstn 11 s :: ls, (match pend with [] => [] | _ => [DOrphanLfn idx] end) ++ iss)
